@@ -40,6 +40,8 @@ def gen_case(rng, quick=True):
     r = rng.random()
     strat = 'dw' if r < 0.34 else 'es' if r < 0.68 else 'cell' if r < 0.77 else 'da' if r < 0.90 else 'std'
     dim = 2 if rng.random() < (0.8 if strat != 'dw' else 0.7) else 3
+    if strat == 'dw' and rng.random() < 0.10:
+        dim = 1              # cheap runs with many single-interval refinements
     a = [rng.choice([0, 0, -1]) for _ in range(dim)]
     b = [rng.choice([1, 1, 2]) for _ in range(dim)]
     nout = rng.choice([1, 1, 2, 3])
@@ -81,8 +83,13 @@ def gen_case(rng, quick=True):
             case['reeval'] = True
         elif ro < 0.22:
             case['storage'] = True            # (asserted to exclude reevaluate_at_end)
-        if rng.random() < 0.08:
+        if rng.random() < 0.18:
+            # recalculate_frequently restarts the computation whenever refinements / refinements_for_recalculate exceeds a counter;
+            # the threshold (public attribute, default 100) is lowered so that restarts HAPPEN within short histories; the default is
+            # kept for a part of the cases (crossed only by the long runs)
             case['recalc'] = True
+            if rng.random() < 0.8:
+                case['recalc_every'] = rng.choice([1, 2, 5, 12])
         if rng.random() < 0.10 and strat != 'cell':      # (cell scheme + evaluation_points raises IndexError in the driver: excluded)
             case['evalpts'] = True
         if rng.random() < 0.06:
@@ -91,7 +98,9 @@ def gen_case(rng, quick=True):
     if strat == 'dw':
         case.update(version=rng.choice([6, 6, 3, 7, 2, 8, 1]), rebalancing=rng.random() < 0.6,
                     errcalc='lib' if rng.random() < 0.5 else ['scripted', rng.randrange(1 << 20)])
-        case['probe_max'] = (rng.choice([40, 60, 90]) if big < 0.86 else 300 if big < 0.95 else 600) if dim == 2 else rng.choice([120, 200])
+        case['probe_max'] = (rng.choice([40, 60, 90]) if big < 0.86 else 300 if big < 0.95 else 600) if dim == 2 else rng.choice([120, 200]) if dim == 3 else rng.choice([40, 150, 300])
+        if case.get('recalc') and 'recalc_every' not in case and dim <= 2:
+            case['probe_max'] = 300 if dim == 1 else 600        # long enough for more than refinements_for_recalculate = 100 refinements
         if rng.random() < 0.22:
             case['ggrid'] = rng.choice(['simpson', 'highorder', 'lagrange2', 'bspline3'])
         if rng.random() < 0.08:
@@ -190,6 +199,8 @@ def _run_adaptive(case, legs, keep_points, reuse=None, options=True):
     else:
         sa, op, f, eo = reuse[1:]
         del sa.evaluate_operation, sa.refine          # remove the wrappers of the previous run
+    if options and case.get('recalc_every'):
+        sa.refinements_for_recalculate = case['recalc_every']
     del f.log[:]                                      # evaluations of THIS run (the function cache is reset by initialize())
     events, evals = [], []
     orig_eval, orig_refine = sa.evaluate_operation, sa.refine
@@ -238,7 +249,8 @@ def _run_adaptive(case, legs, keep_points, reuse=None, options=True):
                    error_array=[A.fl(x) for x in r[5]], num_point_array=[int(x) for x in r[6]],
                    surplus_error_array=[A.fl(x) for x in r[7]], interp_l2=len(r[8]), interp_max=len(r[9]),
                    total_points=int(sa.get_total_num_points()), distinct=nlog(),
-                   evaluationstotal=A.fl(sa.refinement.evaluationstotal), integral=A.vec(op.integral))
+                   evaluationstotal=A.fl(sa.refinement.evaluationstotal), integral=A.vec(op.integral),
+                   restarts=int(getattr(sa, 'counter', 1)) - 1, refinements=int(getattr(sa, 'refinements', 0)))
         if kw.get('solutions_storage') is not None:
             st = kw['solutions_storage']
             rec['storage'] = sorted([int(k), A.vec(v)] for k, v in st.items())
@@ -503,6 +515,12 @@ CORPUS = [
     # the outcome depends on the default tolerance of continue_adaptive_refinement (10**-3, not performSpatiallyAdaptiv's 10**-2)
     dict(strat='dw', a=[0, 0], b=[1, 1], comps=[[[1, [2, 0]], [3, [1, 3]]]], ref=[0.7083333333333334], norm=0, boundary=True, lmin=1, lmax=2,
          seed=9, version=6, rebalancing=True, errcalc='lib', probe_max=250, history=[{'max': 40}, {'max': 249}, {'tol': 0.01}]),
+    # recalculate_frequently with the DEFAULT threshold (100 refinements) crossed by a long cheap 1D run, and with a lowered threshold
+    dict(strat='dw', a=[0], b=[1], comps=[[[1, [2]], [3, [3]]]], ref=None, norm=0, boundary=True, lmin=1, lmax=2, seed=10, version=6, rebalancing=True,
+         errcalc=['scripted', 7], probe_max=200, recalc=True, history=[{'tol': -1.0, 'max': 90}, {'tol': -1.0, 'max': 150}, {'tol': 0, 'max': 160}]),
+    dict(strat='dw', a=[0, 0], b=[1, 1], comps=[[[1, [2, 0]], [3, [1, 3]]]], ref=[0.7083333333333334], norm=0, boundary=True, lmin=1, lmax=2, seed=11,
+         version=6, rebalancing=True, errcalc=['scripted', 5], probe_max=120, recalc=True, recalc_every=2,
+         history=[{'tol': -1.0, 'max': 60}, {'tol': -1.0, 'max': 100}]),
     # exemplars of the known findings of round 2
     dict(strat='es', a=[0, -1, 0], b=[2, 1, 1], comps=[[[1, [3, 2, 3]], [-2, [2, 1, 3]]]], ref=[0.7916666666666666], norm=0, boundary=True,
          lmin=1, lmax=3, seed=836896836, reuse=None, reeval=True, nrbe=1, auto=True, errcalc='lib', probe_max=400, version=2,
@@ -775,11 +793,21 @@ def run(chk):
             nev = sum(len(l['evals']) for l in legs)
             chk.count('evaluations=%s' % (nev if nev < 6 else '6+'))
             chk.count('calls-in-history=%d' % len(hist))
-            for k in ('version', 'rebalancing', 'nrbe', 'auto', 'grid', 'ggrid', 'modified_basis', 'reeval', 'recalc', 'storage', 'evalpts',
+            for k in ('version', 'rebalancing', 'nrbe', 'auto', 'grid', 'ggrid', 'modified_basis', 'reeval', 'recalc', 'recalc_every', 'storage', 'evalpts',
                       'test_scheme', 'single_dim', 'no_initial_splitting', 'chebyshev', 'op', 'margin'):
                 if k in c:
                     chk.count('%s:%s=%s' % (c['strat'], k, c[k] if not isinstance(c[k], list) else c[k][0]))
             chk.count('nout=%s' % (len(c['comps']) if len(c['comps']) < 4 else '17..130')); chk.count('lmax=%d' % c['lmax'])
+            if c.get('recalc'):
+                nre = legs[-1].get('restarts', 0)
+                chk.count('recalculate_frequently (threshold %s): %s restart(s) happened' % (c.get('recalc_every', 'default 100'), nre if nre < 4 else '4+'))
+                chk.count('restarts of recalculate_frequently (total)', nre)
+                pre = r['probe'].get('restarts', 0)
+                chk.count('recalculate_frequently (threshold %s): probe run had %s restart(s)' % (c.get('recalc_every', 'default 100'), pre if pre < 4 else '4+'))
+            zero_ev = sum(1 for l in legs for e in l['evals'][-1:] for o in e['objs'] if A.unfl(o[1]) == 0)
+            chk.count('set_benefit: objects with 0 evaluations at a stop: %s' % ('some' if zero_ev else 'none'))
+            if c.get('volume_weighting'):
+                chk.count('volume weights gate |value| > 1e-10: %s' % ('below (tiny values)' if LG.magnitude(c) < 1e-10 else 'above'))
             sc = c.get('scales') or [0]
             chk.count('integrand scale 2^k: %s' % ('k=0' if set(sc) == {0} else 'mixed over components' if len(set(sc)) > 1 else 'k=%d' % sc[0]))
             if c['ref'] is not None and any(x != 0 for x in c['ref']):
